@@ -345,7 +345,7 @@ def run_case(case, ctx):
         br.append("ill-conditioned-S")
     if bad_i.any():
         return r.fail("%s\n  impl=%s\n  ref =%s%s" % (desc, impl, ref, info_line),
-                      dict(fk, clause="intensity", mode=mode, beta=beta), branches=br, nt=nt, trans=3)
+                      dict(fk, clause="intensity", mode=mode, beta=beta), branches=br, nt=nt, trans=19)
 
     # ---- results(): the intermediates actually used
     def bad(clause, what, got, exp):
@@ -395,11 +395,11 @@ def run_case(case, ctx):
     if len(r.fails) > nfail0:
         r.evals += 1
         r.nt += 1 if nt else 0
-        r.trans += 3
+        r.trans += 19
         return r
     r.ok(nt=nt, outcome="%s:m%s:b%d:%s%s" % (dim, "-" if not have_er else min(mode, 2), beta,
                                              "nan" if both_nan else "fin", ":vfP" if p_has_vf else ""),
-         trans=3, branches=br + ["results-checked"])
+         trans=19, branches=br + ["results-checked"])
     if nt and not r.samples:
         r.sample({"call": desc, "impl": [float(v) for v in impl], "reference": [float(v) for v in ref],
                   "S_alone": [float(v) for v in Sq], "R_eff_used": reff_used, "volume_ratio": float(vratio)})
